@@ -186,11 +186,13 @@ class Runner:
         self.res.counters["responses"] += len(own)
         return [d for (_, d) in own]
 
-    def transfer(self, s, coro):
-        """Drive one client coroutine to completion on server s."""
+    def transfer(self, s, coro, noise=None):
+        """Drive one client coroutine to completion on server s; noise() may inject traffic for another server between steps."""
         try:
             frame = next(coro)
             while True:
+                if noise is not None:
+                    noise()
                 resp = self.step(s, frame)
                 frame = coro.send(resp)
         except StopIteration as e:
@@ -281,11 +283,33 @@ def c02_work(item, ctx):
     res = F.Res()
     kind, idx, n = item
     two = kind == "two"
-    exe = ctx["exes"]["asan2" if two else "asan"]
+    twoh = kind == "twoh"
+    exe = ctx["exes"]["asan2" if (two or twoh) else "asan"]
     rng = random.Random(F.seed_for(ctx["seed"], "C02", kind, idx))
-    world = World(rng, ns=2 if two else 1)
+    world = World(rng, ns=2 if (two or twoh) else 1)
     sim = S.Sim(exe, world.cfg)
     run = Runner(res, sim, world, "C02")
+    noise = None
+    if twoh:
+        # hostile traffic on the OTHER server while the reference client works on server 0; it addresses only objects the
+        # reference transfer does not use (index 2100h sub-indices >= 6 and the strings), so the model stays valid
+        import hostile as H
+        g = H.Hostile(rng, world.cfg, 2)
+        g.muxes = [k for k in world.om if k[0] in (0x2110, 0x2130)] + [(0x5000, 0), (0x1000, 0)]
+
+        def noise():
+            if rng.random() < 0.6:
+                for _ in range(rng.choice([1, 1, 2, 5])):
+                    l = g.sdo_frame(1) if rng.random() < 0.8 else rng.choice(g.sdo_dialogue() or [g.sdo_frame(1)])
+                    parts = l.split()
+                    parts[1] = "%x" % world.req_id(1)
+                    evs = sim.cmd(" ".join(parts))
+                    res.counters["hostile_frames_other_server"] += 1
+                    for (t, cid, dlc, d, f) in S.txs(evs):
+                        if cid != world.resp_id(1):
+                            res.violation("c02/foreign-frame/hostile-other-server", "traffic on server 1 produced a frame on id %x" % cid, sim=sim)
+                    for iv in S.invs(evs):
+                        res.violation("c02/inv/" + iv.split()[0], "invariant: " + iv, sim=sim)
     try:
         bad = world.check_dump(sim)
         if bad:
@@ -307,10 +331,15 @@ def c02_work(item, ctx):
                 while b[0] is a[0]:
                     b = choose_download(rng, world)
                 cases = [(0,) + a, (1,) + b]
+            elif twoh:
+                c = choose_download(rng, world)
+                while c[0].idx not in (0x2100, 0x2120):
+                    c = choose_download(rng, world)
+                cases = [(0,) + c]
             else:
                 cases = [(0,) + choose_download(rng, world)]
             coros = [(s, make_download(rng, o, payload, mode, si, opts)) for (s, o, payload, mode, si, opts) in cases]
-            outs = run.interleave(coros) if two else {0: run.transfer(0, coros[0][1])}
+            outs = run.interleave(coros) if two else {0: run.transfer(0, coros[0][1], noise)}
             res.evals += len(cases)
             for (s, o, payload, mode, si, opts) in cases:
                 out = outs[s]
@@ -495,7 +524,7 @@ def for_property(prop):
     if prop == "C02":
         m.VARIANTS = ["asan", "asan2"]
         m.RULE = ("conforming downloads generated by a CiA 301 reference client over object kind x payload x mode x size indication x "
-                  "last-segment fill x lost-segment pattern, alone and interleaved with a second server (CO_SSDO_N=2); whole-dictionary "
+                  "last-segment fill x lost-segment pattern, alone, interleaved with a second reference client on server 2, and under hostile traffic on server 2 (CO_SSDO_N=2); whole-dictionary "
                   "storage compared after every transfer; non-trivial = confirmed transfer with >= 2 segments, or >= 2 blocks or >= 1 retransmitted block")
         m.ASSUMPTIONS = ["the final segment of every block arrives (a client whose block end is lost times out and aborts)",
                          "domains: payload length <= capacity; fixed-size objects: payload length == object width"]
@@ -505,6 +534,7 @@ def for_property(prop):
             q = tier == "quick"
             items = [("one", i, 25 if q else 60) for i in range(48 if q else 700)]
             items += [("two", i, 12 if q else 30) for i in range(24 if q else 300)]
+            items += [("twoh", i, 12 if q else 30) for i in range(16 if q else 200)]
             items += [("sizes", i, 40 if q else 250) for i in range(16 if q else 32)]
             return items
         m.plan = plan
